@@ -95,7 +95,13 @@ class Exec:
             if performed:
                 w.log.append(("R",) + tuple(item[1:]))
         elif k == "X":
-            performed = self.actions[item[1]](self, *item[2:])
+            try:
+                performed = self.actions[item[1]](self, *item[2:])
+            except Exception:
+                # an action that judges (and raises a Violation) is part of the history: without it the replay would stop short
+                if record:
+                    self.plan.append(list(item))
+                raise
             if performed is None:
                 performed = True
         else:
